@@ -205,6 +205,26 @@ def aug_steps(p, bv, iv):
     yield cmp_of(t, (op, a["init"], a["operand"]), a["c2"])
 
 
+POST_FORMS = ("plain", "gen", "listgen", "map", "iter", "tuple")
+
+
+def post(s, c, form):
+    """Solver.ensure accepts expressions and arbitrarily nested iterables of them (flatten_iterator); the posting form is part of
+    the program: one-shot iterators (generator, map, iter) can be walked only once"""
+    if form in (None, "plain"):
+        s.ensure(c)
+    elif form == "gen":
+        s.ensure(x for x in [c])
+    elif form == "listgen":
+        s.ensure([(x for x in [c])], [])
+    elif form == "map":
+        s.ensure(map(lambda x: x, [c]))
+    elif form == "iter":
+        s.ensure(iter([c]))
+    else:
+        s.ensure((c,), ())
+
+
 def check_program(p):
     """p = {order, doms, steps:[tree]} (or an 'aug' session); returns list of issue dicts (empty = all prefixes fine) + stats"""
     issues = []
@@ -249,7 +269,7 @@ def check_program(p):
                 issues.append({"kind": "construct-exception", "step": step, "detail": "%s: %s" % (type(e).__name__, e)})
                 break
             try:
-                s.ensure(c)
+                post(s, c, p.get("post"))
             except Exception as e:
                 issues.append({"kind": "ensure-exception", "step": step, "detail": "%s: %s" % (type(e).__name__, e)})
                 break
@@ -307,7 +327,7 @@ def run_session(p, upto_step, solve_last=True):
         return s, bv, iv, posted, ret
     for step, t in enumerate(p["steps"][:upto_step + 1]):
         try:
-            s.ensure(trees.mk(t, bv, iv))
+            post(s, trees.mk(t, bv, iv), p.get("post"))
         except trees.Unbuildable:
             continue
         posted.append(t)
@@ -425,6 +445,8 @@ def programs(tier, rng):
         n = rng.randint(2, 4)
         steps = [trees.as_constraint(rng, trees.random_tree(rng, rng.choice("BI"), rng.randint(1, 3))) for _ in range(n)]
         out.append(prog(steps, late=(k % 3 == 0)))
+        if k % 4 == 1:
+            out[-1]["post"] = POST_FORMS[1 + (k // 4) % (len(POST_FORMS) - 1)]
     # (4) a configured time limit that expires if the back end applies it (environment stub): no wrong verdict may come out of it
     for k in range(40 if tier == "quick" else 200):
         n = rng.randint(1, 3)
@@ -475,6 +497,8 @@ def run(tier, only=None):
         pj = {"order": p["order"], "doms": p["doms"], "late": p.get("late", False), "steps": [trees.to_json(t) for t in p["steps"]]}
         if p.get("limit"):
             pj["limit"] = True
+        if p.get("post"):
+            pj["post"] = p["post"]
         if p.get("aug"):
             pj["aug"] = {k: (trees.to_json(v) if k in ("init", "operand") else v) for k, v in p["aug"].items()}
         if not issues:
@@ -501,6 +525,7 @@ def run(tier, only=None):
                            "constructor pair at depth 2%s; random sessions of 2-4 constraints of depth <= 3" % (
                                "" if tier == "quick" else " and 3"),
                   "variables": "2 booleans + 2 integers (+1 late boolean), domains from %r, 4 declaration orders" % (DOMAINS,),
+                  "posting forms": "a quarter of the sessions hand each constraint to ensure() inside a generator, a generator nested in a list, a map object, an iterator or a tuple",
                   "histories": "find_answer after every ensure (every prefix), optional declaration between solves; augmented assignment "
                                "(+= -= &= |= ^=) on a name whose node already sits in a posted constraint (7 x 2 x 5 integer and 7 x 3 x 5 boolean forms)",
                   "time limit": "programs solved with config.solver_timeout set and a z3.Solver stub that answers unknown once a timeout has "
